@@ -81,13 +81,14 @@ MakeNotified(w) ==
 \* First poll of `notified.await`.
 Await(w) ==
     /\ pc[w] = "aw" /\ sst[w] = "init"
-    /\ IF sgen[w] # gen
-       THEN /\ pc' = [pc EXCEPT ![w] = IF NotifiedAfterCheck THEN "c2m" ELSE "mk"]
-            /\ sst' = [sst EXCEPT ![w] = "none"] /\ UNCHANGED <<parked, permit>>
-       ELSE IF permit
-       THEN /\ permit' = FALSE
+    /\ IF permit
+       THEN \* a stored permit is tried first
+            /\ permit' = FALSE
             /\ pc' = [pc EXCEPT ![w] = IF NotifiedAfterCheck THEN "c2m" ELSE "mk"]
             /\ sst' = [sst EXCEPT ![w] = "none"] /\ UNCHANGED parked
+       ELSE IF sgen[w] # gen
+       THEN /\ pc' = [pc EXCEPT ![w] = IF NotifiedAfterCheck THEN "c2m" ELSE "mk"]
+            /\ sst' = [sst EXCEPT ![w] = "none"] /\ UNCHANGED <<parked, permit>>
        ELSE /\ parked' = Append(parked, w)
             /\ sst' = [sst EXCEPT ![w] = "waiting"]
             /\ pc' = [pc EXCEPT ![w] = "parked"] /\ UNCHANGED permit
